@@ -26,6 +26,8 @@ pub(crate) mod h_sampled;
 pub(crate) mod h_wtlfu;
 #[cfg(kani)]
 pub(crate) mod h_ctor;
+#[cfg(kani)]
+pub(crate) mod h_misc;
 
 /// Concrete-playback tests written by the driver when it replays a solver counterexample.
 #[cfg(all(kani, test))]
